@@ -45,7 +45,10 @@ class CandidatePathNameSubTLV(SubTLV):
         return f'"candidate-path-name": {json.dumps(self.name)}'
 
     def __str__(self) -> str:
-        return f'candidate-path-name "{self.name}"'
+        # the name is the peer's: a quote in it must not close the quoted value and let the
+        # rest of the name read as further sub-TLVs of the text event
+        name = self.name.replace('\\', '\\\\').replace('"', '\\"')
+        return f'candidate-path-name "{name}"'
 
     @classmethod
     def unpack(cls, data: Buffer) -> CandidatePathNameSubTLV:
